@@ -499,5 +499,8 @@ func (b *Bessd) InjectJunk(n int, salt uint64) {
 	}
 }
 
+// ResetTables empties every table (harness-side; call inside Inject).
+func (b *Bessd) ResetTables() { b.reset() }
+
 // Close shuts the server down for good.
 func (b *Bessd) Close() { b.srv.Stop() }
